@@ -8,6 +8,11 @@ CLAIMED = {
    text="Seeded search over thread counts 1..32 and over interleavings of the simulated OpenMP runtime (every fork, barrier, critical, single is a scheduler decision; strategies canonical/reverse/random/PCT/starve) for ten component families; oracles: bitwise equality across schedules at a fixed thread count, bitwise/rounding equality against the nt=1 (or nt=17) run by result class, level-scheduled Gauss-Seidel sweep == serial sweep, parallel ILU solve == serial solve up to rounding. Sampling, not proof: the right level for a property quantified over all schedules of a real OpenMP program.",
    note="trusted: the fiber runtime reproduces libgomp's static schedules bit for bit (checked against real libgomp at nt=1,2,4,5,17); sequential consistency; team size always as requested",
    technique="deterministic simulation: seeded schedule search over a simulated OpenMP runtime (fibers), differential oracles across thread counts and schedules"),
+ "C10": dict(cat="exploration", ref="4 (C10), 2.6",
+   text="Heap-history differential: every generated valid world (incl. the degenerate inputs the statement lists) is run under a clean and three seeded dirty simulated heaps (fill 00/FF/AA/sNaN/random, LIFO recycling of stale blocks, shifted addresses, dirtied stack, 0-3 unrelated pre-history solves) and the complete output (hierarchy summary, preconditioner action, solution, iterations, residual, exception) must be bitwise identical; the simulated allocator's ledger must balance (no leak, no double/foreign delete - also for the zero-copy adapter); the same worlds run under ASan+UBSan with varying malloc fill. Sampling, not proof.",
+   note="trusted: replaced global operator new/delete sees every owned array (malloc-level allocations of libc/Eigen are not filled); ASan/UBSan report classification by exit code 77; uninitialised reads that never reach an output are only caught by the sanitizer stage if they are out of bounds",
+   technique="deterministic simulation: seeded heap-state fault injection (fill/recycle/address) with bitwise differential oracle + allocator ledger + sanitizers inside simulated runs",
+   replay="./build/plain/c10 --replay {path}"),
 }
 NA_PURE = {
  "C04": "pure function of (matrix, parameters): aggregation is a serial greedy loop, its parallel loops are statically partitioned without reductions; no schedule, fault or history can change the result (thread-count independence of the operators is exercised under C09)",
